@@ -229,7 +229,14 @@ def sec_kinematics(rep):
                         v = classify(p.exc)
                         rep.add(ob_eval(f"{name}/path{i}/rejection-is-explicit", not v.startswith("internal"), detail=f"{v}: {p.exc!r}"))
                     else:
-                        o = ob_smt(f"{name}/path{i}/result-only-for-valid-kinematics", [sy.M2target > 0] + p.pc, valid)
+                        goal = valid
+                        if tmc:
+                            # a target-mass-corrected result is built from the structure functions at the
+                            # Nachtmann variable xi = 2x / (1 + sqrt(1 + 4 x^2 M^2 / Q^2)) <= x (for modes 1
+                            # and 3 on the whole range [xi, 1]): xi below the grid is "below the grid" too
+                            rho = (1 + 4 * sy.x * sy.x * sy.M2target / sy.Q2).sqrt()
+                            goal = And(valid, 2 * sy.x / (1 + rho) >= xmin)
+                        o = ob_smt(f"{name}/path{i}/result-only-for-valid-kinematics" + ("(x and the Nachtmann xi inside the grid)" if tmc else ""), [sy.M2target > 0] + p.pc, goal)
                         if o.status == REFUTED:
                             env = {k: float(v) for k, v in o.inputs.items() if k in ("x", "Q2", "M2target")}
                             o.replay = native_kinematics(kind, tmc, entry, env)
@@ -410,6 +417,32 @@ def _real_run(th_over, ob_over):
     return v, f"{type(exc).__name__}: {exc}"
 
 
+def sec_grid_history(rep):
+    """'below the grid are always rejected' is a statement about the grid of THIS run: a sequence of real
+    Runners in one interpreter, whose grids start at different points, each asked for a point inside the
+    earlier grids but below its own (and then for a point inside its own) -- structure functions with and
+    without TMC and a cross section.  Also the other way round: a point inside the later, wider grid is
+    accepted although an earlier, narrower run rejected it."""
+    lo = dict(PTO=0, PTODIS=0, FNS="ZM-VFNS", NfFF=4)
+    wide, mid, narrow = [1e-4, 1e-3, 1e-2, 0.1, 0.4, 0.7, 1.0], [1e-2, 0.1, 0.3, 0.6, 1.0], [0.1, 0.3, 0.5, 0.7, 1.0]
+    x_probe = {"wide": 3e-4, "mid": 3e-2, "narrow": 0.2}  # inside that grid, below every narrower one
+    seqs = (("wide", "mid", "narrow"), ("narrow", "wide", "mid", "wide"))
+    grids = {"wide": wide, "mid": mid, "narrow": narrow}
+    order = ("wide", "mid", "narrow")
+    for name, tmc, extra in (("F2_light", 0, {}), ("FL_total", 2, {}), ("F2_total", 1, {}), ("XSHERANC_total", 0, {"y": 0.4})):
+        for seq in seqs:
+            rep.cases += 1
+            bad = []
+            for step, g in enumerate(seq):
+                for probe in order:
+                    inside = x_probe[probe] >= min(grids[g])
+                    v, detail = _real_run(dict(lo, TMC=tmc), dict(prDIS="NC", interpolation_xgrid=list(grids[g]), interpolation_polynomial_degree=2, observables={name: [dict({"x": x_probe[probe], "Q2": 20.0}, **extra)]}))
+                    want = "ok" if inside else "explicit-rejection"
+                    if v != want:
+                        bad.append((step, g, x_probe[probe], want, f"{v}: {detail}"))
+            rep.add(ob_eval(f"C16/grid-history/{name}/TMC={tmc}/runs on the grids {seq} in one interpreter: each accepts exactly the points inside its own grid", not bad, detail=str(bad[:3]), inputs={} if not bad else {"observable": name, "TMC": tmc, "grid sequence": str(seq), "step, grid, x, expected, observed": str(bad[0])}, replay={"confirmed": True, "python": "Runner(LO theory, interpolation_xgrid=<grid>, observables={name: [{x, Q2: 20}]}).get_result() for the grids in this order, same process"}))
+
+
 def sec_real_types(rep):
     """Companion of the symbolic contracts on the REAL types of a run (numpy scalars out of np.sqrt /
     np.power, Python floats and ints out of a card): every structure function x TMC mode returns a
@@ -504,7 +537,7 @@ def run(rep, tier, seed, only=None):
         "in-repo formulas finite on their domain: C03 definedness obligations (run under C03)",
         "explicit rejection := ValueError / NotImplementedError / RuntimeError with a non-empty message",
     )
-    for nm, f in (("dispatch", lambda r: sec_dispatch(r, tier)), ("tmc", sec_tmc_dispatch), ("kinematics", sec_kinematics), ("nans", sec_nans), ("svhistory", sec_sv_history), ("runnertotality", sec_runner_totality), ("realtypes", sec_real_types), ("names", H.observable_names_contract), ("finitetables", lambda r: sec_finite_tables(r, tier))):
+    for nm, f in (("dispatch", lambda r: sec_dispatch(r, tier)), ("tmc", sec_tmc_dispatch), ("kinematics", sec_kinematics), ("nans", sec_nans), ("svhistory", sec_sv_history), ("runnertotality", sec_runner_totality), ("realtypes", sec_real_types), ("gridhistory", sec_grid_history), ("names", H.observable_names_contract), ("finitetables", lambda r: sec_finite_tables(r, tier))):
         if only and only not in nm:
             continue
         rep.add(guarded(f"C16/{nm}", lambda f=f: (f(rep), [])[1]))
